@@ -158,7 +158,9 @@ pub enum Api {
 
 impl Api {
     fn must_flush(&self) -> bool {
-        matches!(self, Api::LzmaDec(_) | Api::Lzma2Dec | Api::RawLzma2 | Api::StreamDec)
+        // "the LZMA and LZMA2 decoders flush the sink": whether Stream::finish (which hands the sink back to the caller)
+        // is one of them is an interpretation - not demanded
+        matches!(self, Api::LzmaDec(_) | Api::Lzma2Dec | Api::RawLzma2)
     }
     fn name(&self) -> String {
         format!("{:?}", self)
@@ -207,8 +209,9 @@ fn run_api(a: Api, input: &[u8], expected: &Rc<Vec<u8>>, f: &Faults) -> RunOut {
                     // every other input: the caller flushes the Stream after each piece (also right before finish)
                     if input.len() % 2 == 1 {
                         if let Err(e) = s.flush() {
-                            err = Some(format!("{:?}", e));
-                            break;
+                            // the caller gives up: going on to finish() after a failed flush would be the DRIVER
+                            // touching the sink after a failure, not the library
+                            return Err(format!("{:?}", e));
                         }
                     }
                 }
@@ -362,15 +365,18 @@ pub fn run(prop: &str, seed: u64, ninputs: usize, trace_path: Option<&str>, expo
             }
             let expected = Rc::new(probe.sink.clone());
             // for decoders cross-check with the spec oracle
-            let oracle_out: Option<Vec<u8>> = match a {
-                Api::LzmaDec(o) => Some(crate::oracle::expect_lzma(&input, o, None).out),
-                Api::StreamDec => Some(crate::oracle::expect_lzma(&input, Opt::ReadFromHeader, None).out),
-                Api::Lzma2Dec | Api::RawLzma2 => Some(crate::oracle::expect_lzma2(&input).out),
-                _ => None,
-            };
+            let oracle_out: Option<Vec<u8>> = oracle_for(a, &input);
             if let Some(oo) = oracle_out {
+                if oo.len() > expected.len() && oo.starts_with(&expected[..]) {
+                    // "on success every output byte has been handed to the sink": the fault-free run returned Ok with
+                    // a strict prefix of what the stream decodes to - bytes are missing, which is C12's own clause
+                    rep.violation(prop, format!("{} [{}]: returned Ok but the sink holds {} bytes, a strict prefix of the {} bytes the stream decodes to", a.name(), iname, expected.len(), oo.len()),
+                        json!({"kind": "io", "api": a.name(), "input_hex": hex(&input), "script": "none", "faults": {}}));
+                    continue;
+                }
                 if oo != *expected {
-                    rep.violation(prop, format!("fault-free output of {} differs from the specification's output", a.name()), json!({"kind": "io", "api": a.name(), "input_hex": hex(&input)}));
+                    // what the correct output IS is C01 / C02's text; C12 needs a reference and cannot use this one
+                    rep.drift(format!("(C01/C02 clause seen while checking {}) fault-free output of {} differs from the specification's output", prop, a.name()), json!({"api": a.name()}));
                     continue;
                 }
             }
@@ -426,16 +432,17 @@ pub fn run(prop: &str, seed: u64, ninputs: usize, trace_path: Option<&str>, expo
                     Rc::new(run_api(a, &input, &empty, &Faults { frags: f.frags.clone(), ..Default::default() }).sink)
                 };
                 let r = run_api(a, &input, &expected, &f);
-                let fault_fired = r.log.iter().any(|e| {
-                    (e["ev"] == "W" && (e["r"] == -1 || (e["r"] == 0 && e["len"].as_u64().unwrap_or(0) > 0)))
-                        || (e["ev"] == "F" && e["ok"] == false)
-                        || (e["ev"] == "R" && e["ok"] == false)
-                });
+                // a call that returned an error ...
+                let hard_fault = r.log.iter().any(|e| (e["ev"] == "W" && e["r"] == -1) || (e["ev"] == "F" && e["ok"] == false) || (e["ev"] == "R" && e["ok"] == false));
+                // ... and a sink that answered Ok(0) to a non-empty buffer: std's write_all turns that into an error, a
+                // writer that retries and then delivers everything may as well succeed - both are accepted
+                let zero_fault = r.log.iter().any(|e| e["ev"] == "W" && e["r"] == 0 && e["len"].as_u64().unwrap_or(0) > 0);
+                let fault_fired = hard_fault || zero_fault;
                 let mut vs: Vec<String> = vec![];
                 match r.verdict {
                     Verdict::Panic => vs.push(format!("panic: {}", r.msg)),
                     Verdict::Ok => {
-                        if fault_fired {
+                        if hard_fault {
                             vs.push("a sink/source call failed but the API returned Ok".into());
                         } else {
                             if r.sink != *expected {
@@ -510,6 +517,16 @@ fn api_from_name(n: &str) -> Option<Api> {
     })
 }
 
+/// What the input decodes to according to the format (decoders only).
+fn oracle_for(a: Api, input: &[u8]) -> Option<Vec<u8>> {
+    match a {
+        Api::LzmaDec(o) => Some(crate::oracle::expect_lzma(input, o, None).out),
+        Api::StreamDec => Some(crate::oracle::expect_lzma(input, Opt::ReadFromHeader, None).out),
+        Api::Lzma2Dec | Api::RawLzma2 => Some(crate::oracle::expect_lzma2(input).out),
+        _ => None,
+    }
+}
+
 pub fn replay_value(v: &Value, prop: &str, rep: &mut Report) {
     let input = crate::report::unhex(v["input_hex"].as_str().unwrap());
     let a = opt_for(api_from_name(v["api"].as_str().unwrap_or("")).expect("api"), &input);
@@ -521,6 +538,13 @@ pub fn replay_value(v: &Value, prop: &str, rep: &mut Report) {
     let f = Faults { write_at: g("write_at"), zero_at: g("zero_at"), flush_at: g("flush_at"), read_at: g("read_at"), short: lst("short"), frags: lst("frags"), wscript, fscript };
     let empty = Rc::new(vec![]);
     let probe = run_api(a, &input, &empty, &Faults::default());
+    if let Some(oo) = oracle_for(a, &input) {
+        if probe.verdict == Verdict::Ok && oo.len() > probe.sink.len() && oo.starts_with(&probe.sink[..]) {
+            rep.eval(1, true);
+            rep.violation(prop, format!("replayed: returned Ok with {} of the {} bytes the stream decodes to", probe.sink.len(), oo.len()), v.clone());
+            return;
+        }
+    }
     let expected = Rc::new(probe.sink.clone());
     let r = run_api(a, &input, &expected, &f);
     // what the log says happened decides (a scripted fault beyond the calls actually made never fires)
